@@ -3,7 +3,7 @@ import time
 from lib import core
 
 ID = 'C03'
-UNITS = []
+UNITS = ['chord_segmentation', 'chord_evaluate', 'hier_measures', 'melody_resample', 'beat_q']
 TRANSLATORS = ['evaluate']
 NOT_COVERED = ('that Python creates a fresh dict for **kwargs on every call (language semantics); what the metric functions compute '
                '(their denotation is a Section variable of the soundness theorem); separation.evaluate is interpreted on one small input only')
@@ -59,7 +59,9 @@ MANIFEST = {
             'run (every path: score key -> metric callee, pre-processed arguments, exactly the keyword overrides that reach the callee) equals the '
             'documented bundle written by hand in Model/EvalSpec.v, and that every return path of every callee has the arity of the target that '
             'receives it (scalars under single keys). A soundness theorem relates the normal form to a concrete semantics of the keyword plumbing '
-            '(Proofs/EvalSound.v when present). The translator is fail-closed: syntax outside the fragment withdraws the model.',
+            '(Proofs/EvalSound.v when present). The translator is fail-closed: syntax outside the fragment withdraws the model. The documented '
+            'pre-processing steps themselves (beat trimming, span adjustment + label merging + merge_chord_intervals, hierarchy re-alignment, '
+            'to_cent_voicing) are tied by five correspondence units, two of which (chord_evaluate, hier_measures EV cases) run evaluate() end to end.',
     'design_ref': 'DESIGN.md section 6, C03',
     'level_note': 'Trusted: Coq kernel + vm_compute; the translator (Python ast); the hand-written documented bundles; filter_kwargs semantics as '
                   'modelled. The oracle that interprets the documented bundle against the real functions is used only to find failing inputs.',
